@@ -47,12 +47,14 @@ func (s *Aggregate) LocalTimeoutRule(view hotstuff.View, syncInfo hotstuff.SyncI
 	return timeoutMsg, nil
 }
 
-func (s *Aggregate) RemoteTimeoutRule(currentView, timeoutView hotstuff.View, timeouts []hotstuff.TimeoutMsg) (hotstuff.SyncInfo, error) {
+func (s *Aggregate) RemoteTimeoutRule(_, timeoutView hotstuff.View, timeouts []hotstuff.TimeoutMsg) (hotstuff.SyncInfo, error) {
 	tc, err := s.auth.CreateTimeoutCert(timeoutView, timeouts)
 	if err != nil {
 		return hotstuff.SyncInfo{}, fmt.Errorf("failed to create timeout certificate: %w", err)
 	}
-	aggQC, err := s.auth.CreateAggregateQC(currentView, timeouts)
+	// the aggregate certificate is for the view the timeout messages were signed for,
+	// which is not the local view when this replica is behind.
+	aggQC, err := s.auth.CreateAggregateQC(timeoutView, timeouts)
 	if err != nil {
 		return hotstuff.SyncInfo{}, fmt.Errorf("failed to create aggregate quorum certificate: %w", err)
 	}
